@@ -1,6 +1,7 @@
 package main
 
 import (
+	"encoding/hex"
 	"fmt"
 	"github.com/polydawn/refmt"
 	"reflect"
@@ -161,7 +162,33 @@ func mutateToks(r *rng, toks []string) []string {
 		}
 	}
 	unknown := []string{"s6e6f7065", "s", "s78", "i4", "0"}
-	switch r.intn(7) {
+	switch r.intn(8) {
+	case 7: // a string token with the case of its letters flipped (or a Unicode case-fold twin: k -> KELVIN SIGN, s -> long s)
+		for try := 0; try < 8; try++ {
+			i := r.intn(len(out))
+			if !strings.HasPrefix(out[i], "s") || len(out[i]) < 3 {
+				continue
+			}
+			raw, err := hex.DecodeString(out[i][1:])
+			if err != nil {
+				continue
+			}
+			s := string(raw)
+			switch r.intn(3) {
+			case 0:
+				s = strings.ToUpper(s)
+			case 1:
+				s = strings.ToUpper(s[:1]) + s[1:]
+			default:
+				s = strings.NewReplacer("k", "\u212a", "s", "\u017f", "K", "\u212a").Replace(s)
+			}
+			if s == string(raw) {
+				s = strings.ToLower(s)
+			}
+			out[i] = "s" + hex.EncodeToString([]byte(s))
+			return out
+		}
+		return nil
 	case 0, 1: // repeat the first entry of a map n times, then an unknown key (or nothing)
 		if len(maps) == 0 {
 			return nil
@@ -434,6 +461,7 @@ func genOrder(tier string, seed uint64) {
 	keySets := [][]string{
 		{"a", "b"}, {"b", "a", "ab"}, {"", "a", "aa", "aaa"}, {"b", "aa", "a", "ba", "c"}, {"é", "e", "z", "éa"}, {"k1", "k10", "k2", "k"},
 		{"\xff", "\x00", "a\x00", "a"}, {"zz", "y", "x", "www", "vvvv"},
+		{"k", "aa", "bb", "c", "dddd", "ee", "f", "gg", "hhh", "i", "jj", "kkk", "l", "mm", "n", "ooo", "pp", "q", "rr", "sss", "t", "uu", "vv", "w", "xx", "yyy"},
 	}
 	hx := func(s string) string {
 		return fmt.Sprintf("%x", strings.NewReplacer("\\xff", "\xff", "\\x00", "\x00").Replace(s))
